@@ -26,27 +26,30 @@ Alloc(o) == /\ Len(objs) < MaxObjs
             /\ grpOwner' = Len(objs) + 1          \* the object constructed last owns the shared node attributes
 Log(op, p, c, k) == hist' = Append(hist, [op |-> op, p |-> p, c |-> c, k |-> k])
 
-Init == objs = <<Obj(NoSel(G), {}, FALSE, FALSE)>> /\ grpOwner = 1 /\ hist = <<>>
+Init == objs = <<Obj(NoSel(G), {}, FALSE, 0)>> /\ grpOwner = 1 /\ hist = <<>>
 
 Copy(p) == Alloc(objs[p]) /\ Log("Copy", p, 0, 0)
 TakeSel(p, c, k) == /\ c \in Active(G, objs[p].sel) /\ k \in Opts(G, c)
                     /\ Alloc([objs[p] EXCEPT !.sel = [objs[p].sel EXCEPT ![c] = k]])
                     /\ Log("TakeSel", p, c, k)
-ApplyConn(p, k) == /\ SelFinal(objs[p]) /\ k \in OpenCc(objs[p])
+\* (the code offers a connection choice whose sources exist as soon as they exist, not only on selection-final objects)
+ApplyConn(p, k) == /\ k \in OpenCc(objs[p])
                    /\ Alloc([objs[p] EXCEPT !.conn = objs[p].conn \cup {k}])
                    /\ Log("ApplyConn", p, k, 0)
 \* the user stores a design-variable value on object p itself (an in-place change of p, of nothing else)
 SetDV(p) == /\ HasDv /\ ~objs[p].dv
             /\ objs' = [objs EXCEPT ![p].dv = TRUE] /\ UNCHANGED grpOwner
             /\ Log("SetDV", p, 0, 0)
-ConstrainCopy(p) == /\ Cardinality(Active(G, objs[p].sel)) >= 2 /\ ~objs[p].cons
-                    /\ Alloc([objs[p] EXCEPT !.cons = TRUE])
-                    /\ Log("ConstrainCopy", p, 0, 0)
+\* k: 1 = linked pair, 2 = permutation, 3 = unordered non-replacing over the free active choices (the last two can be
+\* unsatisfiable, which resolves choices without options on the copy)
+ConstrainCopy(p, k) == /\ Cardinality(Active(G, objs[p].sel)) >= 2 /\ objs[p].cons = 0
+                       /\ Alloc([objs[p] EXCEPT !.cons = k])
+                       /\ Log("ConstrainCopy", p, 0, k)
 \* a processor built on the initial object decodes a further instance (all selection choices resolved)
-Decode(k) == /\ Alloc(Obj(NoSel(G), {}, FALSE, FALSE)) /\ Log("Decode", 1, 0, k)
+Decode(k) == /\ Alloc(Obj(NoSel(G), {}, FALSE, 0)) /\ Log("Decode", 1, 0, k)
 
 Next == \E p \in Ids :
-          \/ Copy(p) \/ SetDV(p) \/ ConstrainCopy(p)
+          \/ Copy(p) \/ SetDV(p) \/ (\E k \in 1..3 : ConstrainCopy(p, k))
           \/ \E c \in ChIds(G) : \E k \in NodeIds(G) : TakeSel(p, c, k)
           \/ \E k \in CcIds(G) : ApplyConn(p, k)
           \/ (p = 1 /\ \E k \in 0..2 : Decode(k))
